@@ -1016,7 +1016,34 @@ fn handle(sb: &Sb, w: &[&str]) -> String {
                 if let Some(sc_) = script {
                     install_script(sc::nr::COPY_FILE_RANGE, 4, sc_);
                 }
-                let r = tiny_std::fs::copy_file(ustr(&sz), ustr(&dz));
+                // the copy goes through a fresh handle (`copy_file`) or through a caller-held handle that has already been
+                // read from (File::open, read k bytes, File::copy): the destination must equal the WHOLE source either way
+                static VARIANT: std::sync::atomic::AtomicUsize = std::sync::atomic::AtomicUsize::new(0);
+                let v = VARIANT.fetch_add(1, std::sync::atomic::Ordering::Relaxed) % 4;
+                let r = if v == 0 {
+                    tiny_std::fs::copy_file(ustr(&sz), ustr(&dz))
+                } else {
+                    match tiny_std::fs::File::open(ustr(&sz)) {
+                        Ok(mut f) => {
+                            use tiny_std::io::Read;
+                            let mut tmp = [0u8; 4096];
+                            let want = [0usize, 1, 7, 4096][v];
+                            if want > 0 {
+                                let _ = f.read(&mut tmp[..want]);
+                            }
+                            if v == 3 {
+                                // drain the handle completely
+                                while let Ok(k) = f.read(&mut tmp) {
+                                    if k == 0 {
+                                        break;
+                                    }
+                                }
+                            }
+                            f.copy(ustr(&dz))
+                        }
+                        Err(e) => Err(e),
+                    }
+                };
                 sc::shim::clear_handler();
                 match r {
                     Ok(f) => {
